@@ -166,6 +166,17 @@ func runForkGenerated(bin string, seed uint64) *RunReport {
 			for j := 0; j < k; j++ {
 				st.Cont = append(st.Cont, gc.Next(r.M))
 			}
+			// items recorded by an old version get their share of later updates
+			for idx, id := range r.M.Order {
+				if it := r.M.Items[id]; it != nil && strings.HasPrefix(id, "LEG") && rng.Chance(2, 3) {
+					ref := fmt.Sprintf("#%d", idx)
+					if rng.Chance(1, 2) {
+						st.Cont = append(st.Cont, Step{Cmd: &Cmd{Op: "set", ID: ref, Body: sp("Write the docs\nDetails follow\n" + gc.text("body"))}})
+					} else {
+						st.Cont = append(st.Cont, Step{Cmd: &Cmd{Op: "set", ID: ref, Title: sp(gc.text("title"))}})
+					}
+				}
+			}
 			sc.Steps = append(sc.Steps, st)
 			r.ExecStep(st)
 			continue
@@ -174,7 +185,10 @@ func runForkGenerated(bin string, seed uint64) *RunReport {
 		if rng.Chance(1, 25) {
 			st = Step{Disk: &DiskOp{Kind: "tail_fragment", Arg: `{"type":"state","ts":"2030-01-01T00:00:00Z","data":{"id":"` + r.M.Resolve("#0")}}
 		}
-		if rng.Chance(1, 30) {
+		if rng.Chance(1, 40) {
+			st = Step{Disk: &DiskOp{Kind: "tail_partial_batch"}}
+		}
+		if rng.Chance(1, 18) {
 			st = Step{Disk: &DiskOp{Kind: "legacy_task", Arg: fmt.Sprintf("LEG%03d", rng.Intn(1000)), N: rng.Intn(4)}}
 		}
 		sc.Steps = append(sc.Steps, st)
